@@ -53,7 +53,15 @@ def corpus_scripts(rng, n):
                 if m != snd and rng.chance(2, 3):
                     g.ops.append({"op": "deliver", "to": m, "msg": aids[-1]})
         w = rng.choice(g.in_group)
-        g.ops.append({"op": "group_info", "who": w, "id": g.fresh("gi"), "ext_commit": True, "tree_ext": rng.chance(1, 2)})
+        gi = g.fresh("gi")
+        in_ext = rng.chance(1, 2)
+        g.ops.append({"op": "group_info", "who": w, "id": gi, "ext_commit": True, "tree_ext": in_ext})
+        # an external commit: a PublicMessage whose sender is new_member_commit (no membership tag)
+        if g.outsiders():
+            xo = {"op": "ext_commit", "who": g.outsiders()[0], "gi": gi, "id": g.fresh("xc")}
+            if not in_ext:
+                xo["tree"] = gi + ".tree"
+            g.ops.append(xo)
         scripts.append(g.script(dump_all=True))
     return scripts
 
